@@ -1,4 +1,5 @@
-"""Generate the verification conditions of one function under its contract."""
+"""Generate the verification conditions of one function (or of a statement range of a
+function: a *slice*) under its contract."""
 from __future__ import annotations
 import ast
 import z3
@@ -6,6 +7,43 @@ from . import values as V
 from .values import Unsupported, NONE, ObjV
 from .engine import Exec, Env, ReturnEx, RaiseEx, PathEnd, load_module, find_def, decorator_names, KNOWN_DECORATORS, BreakEx, ContinueEx
 from .contracts import FnCtx
+
+
+class EnvView:
+    """What a slice postcondition sees: the variables at the end of the slice."""
+
+    def __init__(self, env):
+        self._env = env
+
+    def __getitem__(self, name):
+        return self._env.get(name)
+
+
+def find_slice(fnode, start, end):
+    """The statements from the first one whose source starts with `start` to the first later
+    one (same statement list) whose source starts with `end`, inclusive.  Mechanical: located
+    by source text on every run; not found -> Unsupported (undecided)."""
+
+    def lists(node):
+        for field in ("body", "orelse", "finalbody"):
+            lst = getattr(node, field, None)
+            if isinstance(lst, list) and lst and isinstance(lst[0], ast.stmt):
+                yield lst
+                for s in lst:
+                    if not isinstance(s, (ast.FunctionDef, ast.ClassDef)):
+                        yield from lists(s)
+        for h in getattr(node, "handlers", []) or []:
+            yield from lists(h)
+
+    norm = lambda s: " ".join(ast.unparse(s).split())
+    for lst in lists(fnode):
+        for i, s in enumerate(lst):
+            if norm(s).startswith(start):
+                for j in range(i, len(lst)):
+                    if norm(lst[j]).startswith(end):
+                        return lst[i: j + 1]
+                raise Unsupported(f"slice end anchor {end!r} not found after {start!r} in {fnode.name}")
+    raise Unsupported(f"slice start anchor {start!r} not found in {fnode.name}")
 
 
 def verify_function(prop, spec):
@@ -24,8 +62,18 @@ def verify_function(prop, spec):
 
     a = fnode.args
     real_params = [p.arg for p in a.posonlyargs + a.args + a.kwonlyargs]
-    if a.vararg or a.kwarg:
-        raise Unsupported("*args / **kwargs parameters")
+    is_slice = spec.slice is not None
+    if is_slice:
+        body = find_slice(fnode, *spec.slice)
+        from .engine import number_loops
+
+        ex.loop_ids = number_loops(ast.Module(body=body, type_ignores=[]))  # L0, L1, ... within the slice
+        ex.drops.add(f"{spec.qualname}[{spec.label}]: SLICE lines {body[0].lineno}-{body[-1].end_lineno}; everything of the function outside this statement range is dropped (its effect on the slice's variables is a precondition of the slice contract)")
+    else:
+        body = fnode.body
+        if a.vararg or a.kwarg:
+            if not spec.allow_varargs:
+                raise Unsupported("*args / **kwargs parameters")
 
     def run_once():
         ex.start_path()
@@ -39,20 +87,40 @@ def verify_function(prop, spec):
             from .builtins import empty_seq
 
             env.vars["__yielded__"] = empty_seq(ctx.yield_type.shape())
-        for nm in real_params:
-            if nm not in ctx.args:
-                raise Unsupported(f"contract of {spec.qualname} does not declare parameter {nm}")
-            env.vars[nm] = ctx.args[nm]
-        for nm in ctx.args:
-            if nm not in real_params:
-                raise Unsupported(f"contract of {spec.qualname} declares {nm}, which is not a parameter of the real function")
+        if is_slice:
+            env.vars.update(ctx.args)
+        else:
+            params = list(real_params)
+            if a.vararg:  # verified for calls without extra positional / keyword arguments
+                from .values import Tup
+
+                env.vars[a.vararg.arg] = Tup([])
+            if a.kwarg:
+                from .engine import KwDict
+
+                env.vars[a.kwarg.arg] = KwDict({})
+            for nm in params:
+                if nm not in ctx.args:
+                    raise Unsupported(f"contract of {spec.qualname} does not declare parameter {nm}")
+                env.vars[nm] = ctx.args[nm]
+            for nm in ctx.args:
+                if nm not in params:
+                    raise Unsupported(f"contract of {spec.qualname} declares {nm}, which is not a parameter of the real function")
         ex.env = env
+        returned = False
         try:
             try:
-                ex.exec_block(fnode.body)
+                ex.exec_block(body)
                 res = NONE
             except ReturnEx as r:
+                if is_slice and not spec.slice_allows_return:
+                    raise Unsupported("return inside a slice")
                 res = r.value
+                returned = True
+            except ContinueEx:
+                if not is_slice:
+                    raise
+                res = NONE  # `continue` of an enclosing loop ends the slice normally
         except RaiseEx as r:
             rule = ctx.exc_rules.get(r.exc)
             ln = r.lineno - fnode.lineno
@@ -67,9 +135,14 @@ def verify_function(prop, spec):
             raise Unsupported("break/continue outside a loop")
         if ctx.yield_type is not None:
             res = env.vars["__yielded__"]  # a generator's "result" is the sequence it yields
+        if is_slice:
+            view = EnvView(ex.env)
+            view.returned = res if returned else None  # value of a `return` inside the slice, if any
+            res = view
         ex.return_paths.append(list(ex.hyps))
         for nm, fn in ctx.posts:
             ex.oblige(f"{ex.qualname}/post.{nm}", fn(res), "postcondition")
+        # in-out parameters: the final value of a mutable argument
         # frame: fields not declared modifiable are unchanged
         for f, arrs in ex.heap.items():
             if f in ctx.modifies_fields:
